@@ -42,7 +42,7 @@ ASSUMPTIONS = ["call-level interleavings only (single-threaded); thread pre-empt
                "chain spans cover every time used in the process except in the dedicated K3 scenario"]
 REQUIRED = ["C10:fresh-identical", "C10:after-history", "C10:interleaved", "C10:all-interleavings",
             "C10:same-as-alone-in-fresh-interpreter", "C10:backtest-same-as-step-loop", "C10:copy-continues-identically", "C10:returned-record-unchanged-by-later-episodes"]
-REQUIRED_CATS = ["scenario:used-transmitter-other-latency", "kind:xy", "alone-kind:xy", "alone-kind:spot", "alone-kind:chain", "kind:chain", "kind:spot", "kind:discrete", "history:abandon", "history:full", "history:otherfold", "history:error",
+REQUIRED_CATS = ["scenario:used-transmitter-other-latency", "kind:xy", "alone-kind:xy", "alone-kind:spot", "alone-kind:chain", "kind:chain", "kind:spot", "kind:discrete", "history:abandon", "history:full", "history:otherfold", "history:error", "history:refused-reset",
                  "history:insolvency", "history:windowed", "scenario:K3-construction", "kind:default-state"]
 TECHNIQUE = "runtime monitoring: twin-run comparison of canonical call digests; exhaustive call-level interleavings of two short episodes"
 LEVEL_TEXT = ("Exploration plus an exhaustive enumeration of the call-level interleavings of two short episodes for a few environment "
@@ -406,7 +406,7 @@ def case(ctx, i, tier):
     # the same object after other episodes
     hist = []
     for _ in range(rng.randint(1, 3)):
-        m = rng.choice(["abandon", "full", "error", "otherfold", "insolvency", "windowed"])
+        m = rng.choice(["abandon", "full", "error", "otherfold", "insolvency", "windowed", "refused-reset"])
         hist.append(m)
         ctx.cat("history:" + m)
         if m == "abandon":
@@ -415,6 +415,13 @@ def case(ctx, i, tier):
             episode(A, list(reversed(aA)), fold)
         elif m == "otherfold":
             episode(A, aA, "late" if fold != "late" else "training-set", upto=2)
+        elif m == "refused-reset":
+            # a reset on the OTHER fold that is refused (an episode length no window of that fold can hold); the
+            # caller catches the error and goes back to the fold under test
+            try:
+                A.reset("late" if fold != "late" else "training-set", episode_length=10 ** 6)
+            except Exception:
+                pass
         elif m == "windowed":
             # an episode confined to a sampled window (reset's own episode_length argument)
             try:
